@@ -120,7 +120,41 @@ fn untok(p: *const ()) -> (usize, u8) {
     ((v >> 1) % MAX_IDS, (v & 1) as u8)
 }
 
+// Re-entrant user code: wakers are user objects, and the library runs their clone / wake /
+// drop in the middle of its own operations. A world may arm a callback that is invoked from
+// the n-th such waker callback of the current library call (fault kind "re-entrant call").
+thread_local! {
+    static REENTRY: std::cell::Cell<Option<(unsafe fn(*mut ()), *mut ())>> = const { std::cell::Cell::new(None) };
+    static REENTRY_COUNTDOWN: std::cell::Cell<u32> = const { std::cell::Cell::new(0) };
+}
+
+pub fn arm_reentry(f: unsafe fn(*mut ()), ctx: *mut (), nth: u32) {
+    REENTRY.with(|r| r.set(Some((f, ctx))));
+    REENTRY_COUNTDOWN.with(|c| c.set(nth));
+}
+
+pub fn disarm_reentry() {
+    REENTRY.with(|r| r.set(None));
+    REENTRY_COUNTDOWN.with(|c| c.set(0));
+}
+
+#[inline]
+fn user_callback() {
+    let c = REENTRY_COUNTDOWN.with(|c| c.get());
+    if c == 0 || !crate::val::in_lib() {
+        return;
+    }
+    REENTRY_COUNTDOWN.with(|x| x.set(c - 1));
+    if c == 1 {
+        if let Some((f, ctx)) = REENTRY.with(|r| r.take()) {
+            // Safety: the world that armed the hook keeps `ctx` alive until it disarms it
+            unsafe { f(ctx) }
+        }
+    }
+}
+
 unsafe fn vt_clone(p: *const ()) -> std::task::RawWaker {
+    user_callback();
     let (id, v) = untok(p);
     WAKER_BALANCE.with(|b| b.borrow_mut()[id][v as usize] += 1);
     std::task::RawWaker::new(p, &VTABLE)
@@ -130,6 +164,7 @@ unsafe fn vt_wake(p: *const ()) {
     vt_drop(p);
 }
 unsafe fn vt_wake_by_ref(p: *const ()) {
+    user_callback();
     let (id, v) = untok(p);
     WAKE_LOG.with(|l| {
         let mut l = l.borrow_mut();
@@ -143,6 +178,7 @@ unsafe fn vt_wake_by_ref(p: *const ()) {
     })
 }
 unsafe fn vt_drop(p: *const ()) {
+    user_callback();
     let (id, v) = untok(p);
     WAKER_BALANCE.with(|b| b.borrow_mut()[id][v as usize] -= 1);
 }
@@ -648,6 +684,10 @@ pub fn heartbeat_done() {
 /// the worker forever. The watchdog turns that into an abort, which the parent process then
 /// isolates and reports like any other crash.
 pub fn start_watchdog(limit_s: u64) {
+    if cfg!(miri) {
+        // Miri is ~1000x slower and objects to threads that outlive main
+        return;
+    }
     std::thread::spawn(move || {
         let mut last = [0u64; HB_SLOTS];
         let mut stale = [0u64; HB_SLOTS];
